@@ -13,10 +13,15 @@
 #ifndef VERIF_MODEL_BOOST_MPI_HPP
 #define VERIF_MODEL_BOOST_MPI_HPP
 
+#include <iostream>
+#include <algorithm>
+#include <stdexcept>
 #include <vector>
 #include <map>
 #include <functional>
+#include <set>
 #include <boost/optional.hpp>
+#include <boost/type_traits/is_arithmetic.hpp>
 #include <boost/serialization/access.hpp>
 #include <boost/serialization/vector.hpp>
 #include <boost/serialization/complex.hpp>
@@ -30,8 +35,11 @@ void __vmpi_send(int comm, int dest, int tag, int has_payload, int payload);
 int  __vmpi_irecv(int comm, int source, int tag, int* payload_dst);      // returns request handle (>0)
 int  __vmpi_test(int request, int* tag_out, int* source_out);            // 1 = completed now
 void __vmpi_cancel(int request);
-// collectives: kind 0=broadcast 1=reduce; the harness model records / moves data
-void __vmpi_collective(int comm, int kind, int root, long count, long elem_size, void* data);
+// collectives: rendezvous of all ranks of comm; bcast_sync returns the root's buffer, gather_ptrs an array of the size() input
+// buffers indexed by rank; coll_done releases the buffers (second phase of the rendezvous)
+const void* __vmpi_bcast_sync(int comm, int root, const void* mine, long count);
+const void* const* __vmpi_gather_ptrs(int comm, int root, const void* mine, long count);
+void __vmpi_coll_done(int comm);
 }
 
 #define MPI_ANY_TAG (-1)
@@ -89,22 +97,64 @@ public:
     static bool initialized() { return true; }
 };
 
+// Collectives.  All simulated ranks live in one address space, so a collective is a rendezvous (two-phase: publish pointers,
+// copy, release) implemented by the per-harness model; with the single-rank model both hooks return at once.
 template<typename T> void broadcast(const communicator& c, T* values, int n, int root) {
-    __vmpi_collective(c.id, 0, root, n, sizeof(T), (void*)values);
+    const void* src = __vmpi_bcast_sync(c.id, root, (const void*)values, (long)n);
+    if (c.rank() != root) { const T* s = static_cast<const T*>(src); for (int i = 0; i < n; ++i) values[i] = s[i]; }
+    __vmpi_coll_done(c.id);
+}
+namespace vmpi_detail {
+// Objects that Boost.MPI would (de)serialise through their serialize() member (pomerol's TermList, which is not
+// assignable) are copied field by field through the same serialize() member with two miniature archives.
+struct out_ar { std::vector<const void*> p; template<class T> out_ar& operator&(const T& x) { p.push_back(&x); return *this; } };
+struct in_ar {
+    const std::vector<const void*>& p; size_t i;
+    in_ar(const std::vector<const void*>& p) : p(p), i(0) {}
+    template<class K, class C, class A> static void assign(std::set<K, C, A>& d, const std::set<K, C, A>& s) {
+        d.clear();
+        for (typename std::set<K, C, A>::const_iterator it = s.begin(); it != s.end(); ++it) d.insert(d.end(), *it);
+    }
+    template<class T> static void assign(T& d, const T& s) { d = s; }
+    template<class T> in_ar& operator&(T& x) { assign(x, *static_cast<const T*>(p[i++])); return *this; }
+};
+template<class T> inline void copy_value(T& d, const T& s, boost::true_type) { d = s; }
+template<class T> inline void copy_value(T& d, const T& s, boost::false_type) {
+    out_ar o; boost::serialization::access::serialize(o, const_cast<T&>(s), 0u);
+    in_ar in(o.p); boost::serialization::access::serialize(in, d, 0u);
+}
+}  // namespace vmpi_detail
+template<typename T> void broadcast(const communicator& c, std::vector<T>& value, int root) {
+    const void* src = __vmpi_bcast_sync(c.id, root, (const void*)&value, 1L);
+    if (c.rank() != root) value = *static_cast<const std::vector<T>*>(src);
+    __vmpi_coll_done(c.id);
 }
 template<typename T> void broadcast(const communicator& c, T& value, int root) {
-    __vmpi_collective(c.id, 0, root, 1, sizeof(T), (void*)&value);
+    const void* src = __vmpi_bcast_sync(c.id, root, (const void*)&value, 1L);
+    if (c.rank() != root) vmpi_detail::copy_value(value, *static_cast<const T*>(src), typename boost::is_arithmetic<T>::type());
+    __vmpi_coll_done(c.id);
 }
-template<typename T, typename Op> void reduce(const communicator& c, const T* in, int n, T* out, Op, int root) {
-    __vmpi_collective(c.id, 1, root, n, sizeof(T), (void*)in);
-    if (c.rank() == root) for (int i = 0; i < n; ++i) out[i] = in[i];
+template<typename T, typename Op> void reduce(const communicator& c, const T* in, int n, T* out, Op op, int root) {
+    const void* const* all = __vmpi_gather_ptrs(c.id, root, (const void*)in, (long)n);
+    if (c.rank() == root) {
+        const int P = c.size();
+        for (int i = 0; i < n; ++i) {
+            T acc = static_cast<const T*>(all[0])[i];
+            for (int r = 1; r < P; ++r) acc = op(acc, static_cast<const T*>(all[r])[i]);
+            out[i] = acc;
+        }
+    }
+    __vmpi_coll_done(c.id);
 }
-template<typename T, typename Op> void reduce(const communicator& c, const T* in, int n, Op, int root) {
-    __vmpi_collective(c.id, 1, root, n, sizeof(T), (void*)in);
-}
-template<typename T, typename Op> void all_reduce(const communicator& c, const T* in, int n, T* out, Op) {
-    __vmpi_collective(c.id, 1, -1, n, sizeof(T), (void*)in);
-    for (int i = 0; i < n; ++i) out[i] = in[i];
+template<typename T, typename Op> void all_reduce(const communicator& c, const T* in, int n, T* out, Op op) {
+    const void* const* all = __vmpi_gather_ptrs(c.id, -1, (const void*)in, (long)n);
+    const int P = c.size();
+    for (int i = 0; i < n; ++i) {
+        T acc = static_cast<const T*>(all[0])[i];
+        for (int r = 1; r < P; ++r) acc = op(acc, static_cast<const T*>(all[r])[i]);
+        out[i] = acc;
+    }
+    __vmpi_coll_done(c.id);
 }
 
 }}  // namespace boost::mpi
